@@ -7,6 +7,7 @@ from flosim.gen import cfg_with
 class C08(FloCheck):
     pid = "C08"
     design_ref = "§6 C08"
+    directed_files = ("flo-same-frame-name-in-two-framers-sharing-an-aux",)
     cfg = cfg_with(p_let=0.6, naux=(1, 2), p_aux=0.35, p_caux=0.15, p_go=0.85, p_env=1.0, nframes=(2, 6), p_child=0.6, p_inactive=0.3, p_bid=0.2, nslaves=(0, 1), p_fiat=0.3, p_staged=0.35, p_marker=0.25, p_poke=0.4)
     rule = ("generated programs with 'let' guards on main, auxiliary and slave frames (incl. auxiliary first frames) and shared "
             "original auxiliaries claimed by several frames, with the guarded shares flipped by the environment history at drawn "
